@@ -72,7 +72,10 @@ func checkC18(a *checkArgs, r *Result) error {
 	var wg sync.WaitGroup
 	const total = int64(1)<<32 - 1
 	chunk := (total + int64(workers)) / int64(workers)
-	type bad struct{ n int64; got, want int }
+	type bad struct {
+		n         int64
+		got, want int
+	}
 	bads := make(chan bad, 64)
 	nontriv := make([]int64, workers)
 	for w := 0; w < workers; w++ {
